@@ -47,6 +47,8 @@ mod parser;
 pub mod sass;
 pub mod value;
 mod variablescope;
+#[cfg(feature = "verif_hooks")]
+pub mod verif;
 
 #[cfg(test)]
 mod testutil;
